@@ -126,7 +126,7 @@ CHECKS["C03"] = dict(
     level="exploration", engine="E-REWRITE",
     technique="bounded exhaustive input enumeration on the implementation under ASan/UBSan: structure-aware single mutations of exporter-produced files, nesting bombs, all short raw byte strings, through every read-side entry point in crash-contained workers",
     level_text="Every input of the enumerated families is fed to every CdnsDecoder operation (as first call, followed by skip_item), to CdnsReader, all blocks, all read_generic_* accessors and every string() renderer, in forked workers built with AddressSanitizer+UndefinedBehaviourSanitizer and a per-case watchdog. Families: every truncation; every single-byte substitution (255 values per position); for every CBOR head: argument replaced by 13 boundary values in every head width, major type replaced by each other type, additional info 28..31; nesting bombs (arrays, maps, indefinite arrays, tags; depth 10..2*10^5) raw and as value of an unknown key in every map; all byte strings of length <= 2 and length 3 over a 64-symbol alphabet; k*65535-byte files ending inside a string.",
-    level_note="Trusted: sanitizer runtimes as oracle (memory errors, UB, allocations > 512 MiB, stack overflow), watchdog 20 s per case. Two or more coordinated mutations and reads of uninitialised bytes inside live std::string storage are outside what this check observes. Command-line tools are covered by the tools stage on the distinct outcome classes.",
+    level_note="Trusted: sanitizer runtimes as oracle (memory errors, UB, any single allocation > 64 MiB - inputs are at most 1 MiB, so this is the 'allocation sized by an unchecked length field' detector; length fields are substituted with 2^24, 2^27, 2^30, 2^32-1 ... - and stack overflow), watchdog 20 s per case. Two or more coordinated mutations and reads of uninitialised bytes inside live std::string storage are outside what this check observes. Command-line tools are covered by the tools stage on the distinct outcome classes.",
     stages=[dict(harness="rewrite", variant="asan", args=["--mode", "mutate"])],
     rule="enumerated single mutations per seed node/byte; an input is non-trivial when the reader got past the file header (it exercises block/record decoding); distinct by construction (each mutation generated once)",
     bound_quick="seeds small (594 B: every byte x 255 values) and rich (every 2nd byte x 64 representative values); bombs up to depth 2*10^5; length fields near 2^64/2^63/2^32", bound_thorough="adds seed mid; bombs up to 10^6; raw length-4 strings",
